@@ -270,7 +270,15 @@ pub fn run(log: &mut Log, tag: &str, alpha: &[u8], sc: &Scheme, how: u64, k: usi
                    "yfill": y.first().map(|&b| sym(alpha, b)).unwrap_or(0),
                    "internal": e.internal(), "nomatches": e.nomatches()})
         } else {
-            json!({"x": syms(alpha, x), "y": syms(alpha, y), "big": if planted { 2 } else { 0 },
+            // diag: all k-mer matches lie on one diagonal (decided with the library's own k-mer finder,
+            // only to steer: the claim that follows from it is about the band size)
+            let diag = if planted {
+                let ms = sparse::find_kmer_matches(x, y, k);
+                (!ms.is_empty() && ms.iter().all(|m| m.1 as i64 - m.0 as i64 == ms[0].1 as i64 - ms[0].0 as i64)) as u8
+            } else {
+                0
+            };
+            json!({"x": syms(alpha, x), "y": syms(alpha, y), "big": if planted { 2 } else { 0 }, "diag": diag,
                    "internal": e.internal(), "nomatches": e.nomatches()})
         };
         let r = log.call(e.name(), args, || {
@@ -611,6 +619,36 @@ pub fn drive(log: &mut Log) {
         ];
         log.oblige("thin_band_in_huge_matrix");
         run(log, "planted", acgt, &sc, 0, 16, 10, (10, 10), &calls);
+    }
+    // (c3) a short read (no longer than the window) planted in a long reference: the matrix is far over
+    // the budget (21 x 300 001 cells), the documented band is a few thousand cells
+    for (m, flank, k, w) in [(20usize, 150_000usize, 12usize, 20usize), (24, 120_000, 12, 32), (16, 170_000, 10, 16)] {
+        case += 1;
+        if !log.mine(case) {
+            continue;
+        }
+        let mut rng = Rng::new(seed, 4, case);
+        let (mut x, mut y);
+        loop {
+            x = rng.seq(m, acgt);
+            y = rng.seq(flank, acgt);
+            y.extend_from_slice(&x);
+            y.extend(rng.seq(flank, acgt));
+            let ms = sparse::find_kmer_matches(&x, &y, k);
+            if ms.iter().all(|mm| mm.1 as usize - mm.0 as usize == flank) {
+                break;
+            }
+        }
+        let sc = Scheme { table: mm_table(4, 1, -1), simple: Some((1, -1)), go: -5, ge: -1, clip: [-3, -3, 0, 0] };
+        let ms = sparse::find_kmer_matches(&x, &y, k);
+        let calls = vec![
+            (Entry::Semiglobal, x.clone(), y.clone()),
+            (Entry::Local, x.clone(), y.clone()),
+            (Entry::CustomMatches(ms), x.clone(), y.clone()),
+            (Entry::Custom, x.clone(), y.clone()),
+        ];
+        log.oblige("short_read_in_long_reference_over_budget_matrix");
+        run(log, "planted", acgt, &sc, 0, k, w, (10, 10), &calls);
     }
     // (d) degenerate inputs: empty x / empty y / both, every entry point
     for k in 1..=2usize {
